@@ -29,3 +29,6 @@ CONSTANTS = {
     "angstrom": angstrom, "electronvolt": electronvolt, "meter": meter, "nanometer": nanometer, "second": second,
     "picosecond": picosecond, "amu": amu, "kcalmol": kcalmol, "calmol": calmol, "kjmol": kjmol,
 }
+
+# Relative tolerance for anything multiplied by a unit factor: covers the CODATA 2014/2018/2022 drift (<= 1.4e-9).
+RTOL = 3e-9
